@@ -246,7 +246,7 @@ Qed.
 Lemma step_inv : forall op p acc p' rs,
   run_inv p acc -> p_step p op = (p', rs) -> run_inv p' (acc ++ rs).
 Proof.
-  intros op p acc p' rs Hinv Hst. destruct op as [n|len|lens]; cbn [p_step] in Hst.
+  intros op p acc p' rs Hinv Hst. destruct op as [n|len|lens|ns]; cbn [p_step] in Hst.
   - destruct (p_alloc_r p n) as [p1 r] eqn:H1. injection Hst as Hp Hr. subst p' rs.
     apply (alloc_r_inv p n); assumption.
   - destruct (p_alloc_r p (len + 1)) as [p1 r] eqn:H1. injection Hst as Hp Hr. subst p' rs.
@@ -254,6 +254,7 @@ Proof.
   - unfold p_cstrarr in Hst. destruct lens as [|l0 lt].
     + injection Hst as Hp Hr. subst p' rs. rewrite app_nil_r. exact Hinv.
     + eapply allocs_inv; [exact Hinv|exact Hst].
+  - eapply allocs_inv; [exact Hinv|exact Hst].
 Qed.
 
 Lemma p_run_cons : forall p op t,
